@@ -175,10 +175,13 @@ def model(program):
     labels = {c: None for c in roots.values()}
     ground = None
     for it in program['items']:
-        if it['sym'] == 'label':
-            labels[cls[pt(it['at'])]] = it['name']
+        if it['sym'] in ('label', 'ground'):
+            k = cls[pt(it['at'])]
+            name = it['name'] if it['sym'] == 'label' else it.get('name', '0')
+            # a label and the ground symbol on one net: the property does not say which of the two names wins, either
+            # is accepted (a tuple) - the net is one node and the reference all the same
+            labels[k] = name if labels[k] is None else tuple(sorted(set((labels[k] if isinstance(labels[k], tuple) else (labels[k],)) + (name,))))
         if it['sym'] == 'ground':
-            labels[cls[pt(it['at'])]] = it.get('name', '0')
             ground = cls[pt(it['at'])]
             ground_id = it.get('name', '0')
     comps = []
@@ -291,7 +294,7 @@ def symbol_args(draw, s, w0):
 
 
 @st.composite
-def drawing(draw, min_symbols=3, max_symbols=6, symbol_pool=None, sources_v=None, sources_i=None, with_ground=None):
+def drawing(draw, min_symbols=3, max_symbols=6, symbol_pool=None, sources_v=None, sources_i=None, with_ground=None, label_on_ground=True):
     """a drawing program for a random connected netlist; every netlist node has a home point, every symbol two private
     terminal points (or sits directly on home points), wires (optionally chains) join terminals to homes"""
     pool = symbol_pool or PASSIVES
@@ -360,5 +363,14 @@ def drawing(draw, min_symbols=3, max_symbols=6, symbol_pool=None, sources_v=None
         if k not in used and lab not in names:
             used.add(k)
             items.append({'sym': 'label', 'at': home[k], 'name': lab, 'loc': draw(st.sampled_from(['N', 'S', 'E', 'W', 'NE']))})
+    if g and label_on_ground and draw(st.integers(0, 3)) == 0:
+        # a named node on the reference net itself (at the ground symbol, or at any other point of that net)
+        lab = draw(st.sampled_from(['N', 'gnd', 'GND', '7', 'ref']))
+        if lab not in names and all(it.get('name') != lab for it in items):
+            _, _, cls = model({'items': items})
+            gk = cls[pt(next(it['at'] for it in items if it['sym'] == 'ground'))]
+            pts = sorted(p for p, k in cls.items() if k == gk)
+            at = list(pts[draw(st.integers(0, len(pts) - 1))])
+            items.append({'sym': 'label', 'at': at, 'name': lab, 'loc': draw(st.sampled_from(['N', 'S', 'E', 'W', 'NE']))})
     items = list(draw(st.permutations(items)))
     return {'unit': draw(st.sampled_from([3, 7, 2.5])), 'items': items}
